@@ -158,8 +158,11 @@ def class_edit(rng, lib, prefer=None):
         arg = {"name": name, "decl": "param", "ty": {"list": "int"}, "optional": False, "default": {"l": []}}
     elif r < 0.7:
         arg = {"name": name, "decl": "param", "ty": "int", "optional": True}
-    elif r < 0.85:
+    elif r < 0.8:
         arg = {"name": name, "decl": "meta", "ty": "int", "optional": True}
+    elif r < 0.9:
+        # a generated value that is not a path (`field(default_factory=...)`): present once the graph is sealed
+        arg = {"name": name, "decl": "factory", "ty": "int", "optional": False, "fval": rng.choice([0, 1, 7, 42])}
     else:
         arg = {"name": name, "decl": "pathgen", "ty": "path", "optional": False, "file": "extra.txt"}
     c["args"].append(arg)
